@@ -155,6 +155,29 @@ func (e *Engine) intercept(fn *ssa.Function, args []Value) (Value, bool) {
 	case "math.Abs":
 		e.stub(key)
 		return e.fpUn("fp.abs", args[0].(*Term)), true
+	case "math.Min", "math.Max":
+		// exact Go semantics from interpreted comparisons only (so it is the same in exact and uninterpreted float mode):
+		// a NaN operand wins; otherwise the smaller / larger; of two zeros Min prefers -0 and Max +0
+		e.stub(key)
+		x, y := args[0].(*Term), args[1].(*Term)
+		if x.IsConst() && y.IsConst() {
+			if key == "math.Min" {
+				return tb.FP(math.Min(x.fval, y.fval)), true
+			}
+			return tb.FP(math.Max(x.fval, y.fval)), true
+		}
+		a, b := x, y
+		if key == "math.Max" {
+			a, b = y, x // Max: "a is larger" = b < a
+		}
+		neg := tb.FPUnPred("fp.isNegative", x)
+		tie := tb.Ite(neg, x, y) // equal (or both zero): Min takes the negative zero
+		if key == "math.Max" {
+			tie = tb.Ite(neg, y, x)
+		}
+		r := tb.Ite(tb.FPCmp("fp.lt", a, b), x, tb.Ite(tb.FPCmp("fp.lt", b, a), y, tie))
+		r = tb.Ite(tb.FPUnPred("fp.isNaN", x), x, tb.Ite(tb.FPUnPred("fp.isNaN", y), y, r))
+		return r, true
 	case "math.Pow":
 		e.stub(key)
 		x, y := args[0].(*Term), args[1].(*Term)
